@@ -23,7 +23,7 @@ ASSUMPTIONS = ['a kill inside shutil.copy of datapackage.json leaves a prefix of
 from contracts.common import lazy_sym, lazy_nat   # noqa: E402
 
 ITEMS = [
-    Item('DumperBase.process_resources', DM.sym_process_resources, [('crashpoints', N.nat_dump_crashpoints)],
+    Item('DumperBase.process_resources', DM.sym_process_resources, [('crashpoints', N.nat_dump_crashpoints), ('failing-runs', N.nat_dump_failures)],
          DM.D + 'dumper_base.py::DumperBase.process_resources'),
     Item('FileDumper.rows_processor', DM.sym_rows_processor, [], DM.D + 'file_dumper.py::FileDumper.rows_processor'),
     Item('FileDumper.dispatch', DM.sym_file_dumper_dispatch, [], DM.D + 'file_dumper.py::FileDumper.process_datapackage'),
